@@ -114,17 +114,25 @@ theorem leftPad_length (b : Bytes) (n : Nat) (h : b.length ≤ n) : (leftPad b n
   · omega
   · simp; omega
 
-/-- every run that reads operands returns the modular power, in exactly `modLen` bytes -/
+theorem beNat_leftPadU64 (b : Bytes) (n : Nat) : beNat (leftPadU64 b n) = beNat b := by
+  unfold leftPadU64; split
+  · exact beNat_leftPad b n
+  · rfl
+
+/-- every run that reads operands returns the modular power; in exactly `modLen` bytes when `modLen < 2^63`
+    (from 2^63 on `int(modLen)` is negative and Go pads nothing: `run_unpadded`) -/
 theorem run_spec (input : Bytes) (o : Operands) (h : operands input = .ok (some o)) :
     ∃ out, run input = .ok out ∧
       beNat out = (if o.mod = 0 then 0 else o.base ^ o.exp % o.mod) ∧
-      (o.mod < 256 ^ o.modLen → out.length = o.modLen) := by
-  refine ⟨leftPad (natBytes (value o)) o.modLen, ?_, ?_, ?_⟩
+      (o.modLen < 2 ^ 63 → o.mod < 256 ^ o.modLen → out.length = o.modLen) := by
+  refine ⟨leftPadU64 (natBytes (value o)) o.modLen, ?_, ?_, ?_⟩
   · unfold run
     show (operands input).bind _ = _
     rw [h]; rfl
-  · rw [beNat_leftPad, beNat_natBytes, value_eq]
-  · intro hm
+  · rw [beNat_leftPadU64, beNat_natBytes, value_eq]
+  · intro hl hm
+    unfold leftPadU64
+    rw [if_pos hl]
     apply leftPad_length
     apply natBytes_length
     rw [value_eq]
@@ -132,6 +140,16 @@ theorem run_spec (input : Bytes) (o : Operands) (h : operands input = .ok (some 
     · exact Nat.pow_pos (by decide)
     · rename_i h0
       exact Nat.lt_trans (Nat.mod_lt _ (Nat.pos_of_ne_zero h0)) hm
+
+/-- a modulus length word whose low 64 bits are 2^63 or more: the minimal bytes of the value, unpadded -/
+theorem run_unpadded (input : Bytes) (o : Operands) (h : operands input = .ok (some o)) (hl : ¬ o.modLen < 2 ^ 63) :
+    run input = .ok (natBytes (value o)) := by
+  unfold run
+  show (operands input).bind _ = _
+  rw [h]
+  show Res.ok (leftPadU64 _ _) = _
+  unfold leftPadU64
+  rw [if_neg hl]
 
 /-- a run that reads no operands (both lengths zero) returns nothing -/
 theorem run_empty (input : Bytes) (h : operands input = .ok none) : run input = .ok [] := by
@@ -366,7 +384,7 @@ theorem run_correct (input : Bytes) (o : Operands) (hi : input.length < 2 ^ 63) 
     ∃ out, run input = .ok out ∧ out.length = o.modLen ∧
       beNat out = (if o.mod = 0 then 0 else o.base ^ o.exp % o.mod) := by
   obtain ⟨out, h1, h2, h3⟩ := run_spec input o h
-  exact ⟨out, h1, h3 (operands_mod_fits input o hi h hm), h2⟩
+  exact ⟨out, h1, h3 hm (operands_mod_fits input o hi h hm), h2⟩
 
 end Modexp
 end Artela
